@@ -11,6 +11,12 @@ EXTENDS Naturals, Integers, Sequences
 SrcBox(i) == IF i = 1 THEN <<51, 701, 351, 1101>>       \* high on the sheet: lower edge above the right edge
              ELSE IF i % 2 = 1 THEN <<100 + i, 200 + i, 400 + i, 600 + i>> ELSE <<10, 20, 310, 420>>      \* even pages inherit theirs
 SrcCrop(i) == IF i % 3 = 0 THEN <<110, 210, 390, 590>> ELSE <<>>
+\* the images a source page draws, in drawing order, each with its samples and the samples of its soft mask: page 1 two
+\* images that SHARE one mask object, page 2 one with a mask of its own, page 4 the first image of page 1 again
+SrcDraws(i) == CASE i = 1 -> << [data |-> <<10, 20, 30, 40>>, mask |-> <<0, 85, 170, 255>>], [data |-> <<50, 60, 70, 80>>, mask |-> <<0, 85, 170, 255>>] >>
+                 [] i = 2 -> << [data |-> <<1, 2, 3, 4>>, mask |-> <<9, 8, 7, 6>>] >>
+                 [] i = 4 -> << [data |-> <<10, 20, 30, 40>>, mask |-> <<0, 85, 170, 255>>] >>
+                 [] OTHER -> <<>>
 SrcRot(i) == CASE i % 4 = 1 -> 0 [] i % 4 = 2 -> 90 [] i % 4 = 3 -> 0 - 90 [] OTHER -> 450
 Norm(r) == ((r % 360) + 360) % 360
 P(i) == [page |-> i, rot |-> Norm(SrcRot(i))]
